@@ -12,7 +12,7 @@ RULE = (
     "(a) selection: every rule code, name, group and alias singly plus seeded allow/deny combinations (codes, names, groups, aliases, globs 'L*', '*.keywords', 'AL0?', '[AC]*', overlaps, unknown refs); "
     "expected = union(match(allow)) - union(match(deny)) over the model's own reference map (precedence code>name>group>alias, fnmatch globs); observed = codes instantiated by get_rulepack, codes that "
     "actually entered BaseRule.crawl on a probe file (wrapper), and codes of reported violations; (b) independence (lint mode): for a fixture/mutant/yaml-example file, violations of rule R in an "
-    "all-rules run == violations of R run alone, for up to 8 seeded rules per file; distinct = selector pair / (file, rule set); non-trivial = selection non-empty resp. some compared rule reported a violation"
+    "all-rules run == violations of R run alone, for up to 8 seeded rules per file, and for generated files full of noqa directives that name other rules; distinct = selector pair / (file, rule set); non-trivial = selection non-empty resp. some compared rule reported a violation"
 )
 ASSUMPTIONS = ["rule metadata comes from Linter.rule_tuples(); matching semantics are the model's own"]
 TIMEOUT = {"quick": 400, "thorough": 900}
@@ -92,9 +92,10 @@ def cases(tier, seed):
         c["id"] = "ind:" + c["id"]
         c["stratum"] = "ind:" + c["stratum"]
         ind.append(c)
+    nq = [{"id": f"indnoqa:{i}", "kind": "indnoqa", "idx": i, "stratum": "indnoqa"} for i in range(400)]
     if tier == "quick":
-        return stratified_sample(sel, lambda c: c["stratum"], 450, seed) + stratified_sample(ind, lambda c: c["stratum"], 140, seed)
-    return sel + ind
+        return stratified_sample(sel, lambda c: c["stratum"], 450, seed) + stratified_sample(ind, lambda c: c["stratum"], 140, seed) + stratified_sample(nq, lambda c: c["stratum"], 120, seed)
+    return sel + ind + nq
 
 
 def run_sel(case):
@@ -174,5 +175,35 @@ def run_ind(case):
     }
 
 
+def run_indnoqa(case):
+    """Independence in the presence of noqa directives that name OTHER rules: what rule R reports must not
+    depend on whether the rules named in the file's noqa comments are enabled."""
+    from vfw.props import C20
+
+    source, forms, _ = C20.gen_e2e(case["idx"])
+    full = "LT01,CP01,AL01,LT02"
+    try:
+        all_v = sf.make_linter("ansi", rules=full).lint_string(source).get_violations(filter_warning=False)
+    except Exception as e:
+        return {"status": "skip", "counters": {"lint_raised": 1}, "detail": repr(e)[:200]}
+    fails = []
+    pairs = 0
+    for code in ("LT01", "CP01"):
+        want = sorted((v.line_no, v.line_pos, v.desc()) for v in all_v if v.rule_code() == code)
+        try:
+            vs = sf.make_linter("ansi", rules=code, cache=False).lint_string(source).get_violations(filter_warning=False)
+        except Exception as e:
+            continue
+        alone = sorted((v.line_no, v.line_pos, v.desc()) for v in vs if v.rule_code() == code)
+        pairs += 1
+        if alone != want:
+            fails.append({"sig": f"rule_depends_on_others_via_noqa:{code}", "detail": {"source": source, "alone": alone[:5], "with_others": want[:5]}})
+    return {"status": "fail" if fails else "pass", "failures": fails[:1], "counters": {"independence_rule_pairs": pairs, "noqa_independence_files": 1},
+            "key": case["id"] if any(forms) and all_v else None}
+
+
 def run_case(case):
+    if case["kind"] == "indnoqa":
+        ctx()
+        return run_indnoqa(case)
     return run_sel(case) if case["kind"] == "sel" else run_ind(case)
